@@ -290,6 +290,29 @@ Definition heval (f : fam) (g : fn) (ps : list R) (zs : list Z) (ops : list hop)
       after normal_ops (normal_newv ps) ops (fun d => translation_logpdf (normal_logpdf d) (P ps 2) x)
   | FLogTransNormal, LogPdf =>
       after normal_ops (normal_newv ps) ops (fun d => logtransform_logpdf (normal_logpdf d) (P ps 2) x)
+  (* round 6: the Pdf methods after a history *)
+  | FExponential, Pdf => after exp_ops (exp_newv ps) ops (fun d => exp_pdfm d x)
+  | FLaplace, Pdf => after lap_ops (lap_newv ps) ops (fun d => lap_pdfm d x)
+  | FPareto, Pdf => after par_ops (par_newv ps) ops (fun d => par_pdfm d x)
+  | FGPareto, Pdf => after gp_ops (gp_newv ps) ops (fun d => gp_pdfm d x)
+  | FGev, Pdf => after gev_ops (gev_newv ps) ops (fun d => gev_pdfm d x)
+  | FGamma, Pdf => after gam_ops (gam_newv ps) ops (fun d => gam_pdfm d x)
+  | FBeta, Pdf => after beta_ops (beta_new lgam (P ps 0) (P ps 1) (Z.eqb (nth 0 zs 0%Z) 1)) ops
+                       (fun d => beta_pdfm d x)
+  | FBinomial, Pdf => after bin_ops (bin_new lgam (P ps 0) (nth 0 zs 0%Z)) ops (fun d => bin_pdfm lgam d x)
+  | FCategorical, Pdf => after cat_ops (cat_new ps) ops (fun d => cat_pdfm d x)
+  | FCauchy, Pdf => after cau_ops (cau_newv ps) ops (fun d => cau_pdfm d x)
+  | FChiSquared, Pdf => after chi_ops (chi_newv ps) ops (fun d => chi_pdfm d x)
+  | FDelta, Pdf => after delta_ops (delta_newv ps) ops (fun X => delta_pdfm X x)
+  | FGenGamma, Pdf => after gg_ops (gg_newv ps) ops (fun d => gg_pdfm d x)
+  | FGeometric, Pdf => after geo_ops (geo_newv ps) ops (fun d => geo_pdfm d x)
+  | FNegBinomial, Pdf => after nb_ops (nb_newv ps) ops (fun d => nb_pdfm lgam d x)
+  | FPoisson, Pdf => after poi_ops (poi_newv ps) ops (fun d => poi_pdfm lgam d x)
+  | FPowerLaw, Pdf => after pl_ops (pl_newv ps) ops (fun d => pl_pdfm d x)
+  | FTransNormal, Pdf =>
+      after normal_ops (normal_newv ps) ops (fun d => translation_pdfm (normal_logpdf d) (P ps 2) x)
+  | FLogTransNormal, Pdf =>
+      after normal_ops (normal_newv ps) ops (fun d => logtransform_pdfm (normal_logpdf d) (P ps 2) x)
   | _, _ => NoSuch
   end.
 
